@@ -41,13 +41,16 @@ CORPUS = [
 
 def run(chk):
     chk.trusted = cc.TRUSTED_COMPILER
-    chk.assumptions = ["programs are generated over the modelled fragment; sibling-argument order does not arise "
-                       "(the only call is the unary (log k e))"]
+    chk.assumptions = ["programs are generated over the modelled fragment plus let and a call with two arguments (log2 k a b) "
+                       "(behaviour only; reference: a, then b, then the effect point); sibling-argument order, which "
+                       "docs/semantics.rst leaves unspecified when a later argument needs statements, does not arise: in every "
+                       "generated (log2 k a b) either b needs no statements or what remains of a after its statements is a "
+                       "constant or a compiler temporary"]
     cc.register_matchers(chk)
     chk.prove("Props/C01.v", ["Props/C01.vo", "Compiler/Run.vo"], [compiler_tables.translate])
     rng = chk.rng
     thorough = chk.tier == "thorough"
-    n1, n2 = (4000, 4000) if thorough else (500, 500)
+    n1, n2, n3 = (4000, 4000, 2400) if thorough else (420, 420, 240)
     progs = [cc.dress(rng, e, fault_p=0.0) for e in CORPUS]
     for p in progs[-1:]:
         p["vals"] = [("int", 5), ("int", 1), ("none",), ("none",)]
@@ -55,10 +58,21 @@ def run(chk):
     progs += cc.make_progs(rng, n2, ["setx", "exn", "raise", "while", "try"], 1, 4)
     # let, as a renaming of fresh model variables (may shadow outer names): behaviour only
     progs += cc.make_progs(rng, n2 // 2, ["setx", "exn", "raise", "try", "let"], 2, 4)
+    # focused shapes, each in a context that observes the value: (a) and/or with a value-less statement operand
+    # (setv, while, do ending in setv) that is reached in a non-first position; (b) a try whose body raises and whose
+    # selected handler ends in a value-less statement; (c) else-if ladders (cond) with two statement-lifted ifs in a
+    # clause other than the first, both values live as the arguments of a call with two arguments; (d) such calls anywhere
+    full = ["setx", "exn", "raise", "while", "try", "log2", "focus"]
+    progs += cc.focused_progs(rng, n3, full, ["ladder", "try_valueless_handler", "ladder", "bool_valueless", "two_live",
+                                              "try_valueless_handler"])
+    progs += cc.make_progs(rng, n3 // 2, full, 2, 4)
     cc.annotate(progs)
     chk.count("programs in which Result.rename fires", sum(1 for p in progs if p["extra"]["renames"]))
-    chk.rule = ("grammar-directed programs of depth 1-5 over const/var/(log k e)/do/setv/setx/and/or/not/if/raise (half) "
-                "plus while/break/continue/try (half); every expression slot may hold a statement-producing form; a fault "
-                "table makes up to two effect points raise one of 5 exception classes; non-trivial = distinct program of size >= 4")
+    chk.rule = ("grammar-directed programs of depth 1-5 over const/var/(log k e)/do/setv/setx/and/or/not/if/raise (a third) "
+                "plus while/break/continue/try (a third); let; focused shapes (value-less statement operands of and/or reached "
+                "in non-first position, try whose selected handler ends in a value-less statement, else-if ladders with two "
+                "statement-lifted ifs live at once as arguments of a two-argument call) in value-observing contexts; every "
+                "expression slot may hold a statement-producing form; a fault table makes up to two effect points raise one of "
+                "5 exception classes; non-trivial = distinct program of size >= 4")
     cc.differential(chk, progs)
-    chk.extra["forms_outside_the_model"] = ["calls with several arguments", "operators", "get", "cut", "let", "for", "comprehensions", "with", "fn", "return", "match"]
+    chk.extra["forms_outside_the_model"] = ["calls with several arguments (one binary call is exercised behaviourally)", "operators", "get", "cut", "let", "for", "comprehensions", "with", "fn", "return", "match"]
